@@ -103,6 +103,29 @@ def _node(op, av):
     raise Unsupported(f"regex op {op}")
 
 
+def lazy_quantifiers(pattern: str, flags: int = 0):
+    """lazy (minimal) quantifiers of the pattern, as text positions are not kept by the parser: a list of their (lo, hi) bounds.  The
+    language of a pattern does not depend on greedy vs lazy, what its groups capture does: with greedy quantifiers only, a group takes
+    the longest text that still lets the rest match (the reading the extent grammar specifies for the quoted file name)."""
+    out = []
+
+    def walk(seq):
+        for op, av in seq:
+            if op == sre_c.MIN_REPEAT:
+                out.append((av[0], "inf" if av[1] == sre_c.MAXREPEAT else av[1]))
+                walk(av[2])
+            elif op == sre_c.MAX_REPEAT:
+                walk(av[2])
+            elif op == sre_c.SUBPATTERN:
+                walk(av[3])
+            elif op == sre_c.BRANCH:
+                for b_ in av[1]:
+                    walk(b_)
+
+    walk(sre_parse.parse(pattern, flags))
+    return out
+
+
 def to_z3(pattern: str, flags: int = 0):
     """z3 regex for the *full-match* language of an anchored pattern (^...$); raises Unsupported for an unanchored one"""
     tree = sre_parse.parse(pattern, flags)
